@@ -176,6 +176,14 @@ def run(case, ctx):
                 ctx.violate(f"C16/{entry}/{kind}:{obj.type}", f"parse #{i + 1} of {before!r} raised {obj!r}")
                 return
             results.append(obj)
+            if i == 0 and case["n"] >= 3:
+                # an independent parse of an equal copy of the spec, kept pristine for comparison,
+                # while the first result is handed to a caller who changes it (results of earlier
+                # parses must not leak into later ones)
+                okp, pristine = call(parse, _copy_with_types(before))
+                if okp:
+                    results[0] = pristine
+                    scribble_obj(obj)
     first = results[0]
     for i, o in enumerate(results[1:], 2):
         okq, eq = call(lambda: (o == first, first == o))
@@ -243,3 +251,31 @@ def _copy_with_types(x):
     if type(x) is list:
         return [_copy_with_types(v) for v in x]
     return x
+
+
+def scribble_obj(o):
+    """what a caller may legitimately do with an object it got from a parser"""
+    import valida
+    import valida.datapath as DP
+    try:
+        if isinstance(o, valida.Schema):
+            o.rules.clear()
+        elif isinstance(o, list):
+            for r in o:
+                scribble_obj(r)
+            o.clear()
+        elif isinstance(o, valida.Rule):
+            o.path = DP.DataPath("scribbled")
+            o.cast = None
+            o.doc = {"description": ["scribbled"], "examples": []}
+        elif isinstance(o, DP.DataPath):
+            o.parts = ()
+        elif isinstance(o, DP.ContainerValue):
+            o.label = "scribbled"
+        elif hasattr(o, "children"):
+            o.children = (o.children[0], o.children[0])
+        elif hasattr(o, "callable"):
+            o.callable._kwargs = {"scribbled": True}
+            o.callable._args = ()
+    except Exception:
+        pass
